@@ -73,6 +73,18 @@ impl RMesh {
         RMesh { verts, tris, box_half: Some(half), box_centre: centre, min_leg }
     }
 
+    /// Concatenation of two meshes (first `a`, then `b` moved by `offset`): a mesh of two
+    /// disconnected parts. No box information (containment tests do not apply).
+    pub fn two_parts(a: &RMesh, offset_a: V3, b: &RMesh, offset_b: V3) -> RMesh {
+        let mut verts: Vec<V3> = a.verts.iter().map(|v| [f32r(v[0] + offset_a[0]), f32r(v[1] + offset_a[1]), f32r(v[2] + offset_a[2])]).collect();
+        let base = verts.len() as u32;
+        verts.extend(b.verts.iter().map(|v| [f32r(v[0] + offset_b[0]), f32r(v[1] + offset_b[1]), f32r(v[2] + offset_b[2])]));
+        let mut tris = a.tris.clone();
+        tris.extend(b.tris.iter().map(|t| [t[0] + base, t[1] + base, t[2] + base]));
+        let min_leg = min_leg_of(&verts, &tris);
+        RMesh { verts, tris, box_half: None, box_centre: [0.0; 3], min_leg }
+    }
+
     pub fn from_trimesh(m: &TriMesh) -> RMesh {
         let verts: Vec<V3> = m.vertices().iter().map(|p| [p.x as f64, p.y as f64, p.z as f64]).collect();
         let tris: Vec<[u32; 3]> = m.indices().iter().map(|t| [t[0], t[1], t[2]]).collect();
